@@ -57,11 +57,19 @@ func C10(c *Ctx) {
 	profiles := []*gast.Profile{pegProfile(), stateProfile(), errorProfile(), throwProfile()}
 	var gs []*gast.Grammar
 	var lr []bool
-	for _, g := range append(append(c05Strata(), rollbackStrata()[:20]...), c02Strata()...) {
-		gs = append(gs, g)
-		lr = append(lr, false)
+	var xi []int // index into xs (base flag set) per grammar
+	fold := &gast.Grammar{Rules: []*gast.Rule{{Name: "S", Expr: gast.S(gast.Star(gast.C(gast.Cl(&gast.ClassSpec{Ranges: [][2]rune{{'a', 'z'}}, IgnoreCase: true}),
+		gast.Cl(&gast.ClassSpec{Chars: []rune("Ω-"), IgnoreCase: true}), gast.Li("å"))), gast.NotE(gast.Dot()))}}}
+	// the fixed shapes run under every base flag set
+	for k := 0; k < 4; k++ {
+		for _, g := range append(append(append(c05Strata(), rollbackStrata()[:20]...), c02Strata()...), fold) {
+			gs = append(gs, g.Clone())
+			lr = append(lr, false)
+			xi = append(xi, k)
+		}
 	}
 	for i := 0; i < n; i++ {
+		xi = append(xi, (i/5)%4)
 		if i%5 == 4 {
 			gs = append(gs, genLR(rng, i%2 == 0))
 			lr = append(lr, true)
@@ -76,7 +84,7 @@ func C10(c *Ctx) {
 		Grammars: gs,
 		IsLR:     func(gi int) bool { return lr[gi] },
 		VarFor: func(gi int, g *gast.Grammar) [][]string {
-			x := xs[(gi/5)%len(xs)]
+			x := xs[xi[gi]]
 			if lr[gi] {
 				x = []string{"-support-left-recursion"}
 			}
